@@ -257,3 +257,88 @@ package ro
 //@   ensures [teardown-registered|C03,C14] !panicked(subscribe) && !caught ==> trace(call.NewSubscriberWithConcurrencyMode(_, _), callfn.subscribe(_, _), subscription.Add(res(callfn.subscribe)))
 //@   ensures [panic-becomes-error-then-release|C01,C07] panicked(subscribe) ==> trace(call.NewSubscriberWithConcurrencyMode(_, _), callfn.subscribe(_, _), subscription.ErrorWithContext(ctx, newObservableError(recoverValueToError(panicval(subscribe)))), subscription.Unsubscribe())
 //@   ensures [returns-the-gate|C01] result == res(call.NewSubscriberWithConcurrencyMode)
+
+// ---------------------------------------------------------------------------
+// The named constructors fix the concurrency mode (0 safe, 1 unsafe, 2 eventually safe). Layer P4 and every
+// operator contract identify a constructor by its name, so the name must mean the mode (C01, C02).
+// ---------------------------------------------------------------------------
+
+//@ func NewObservableWithConcurrencyMode
+//@   props C01 C02
+//@   binds subscribe mode
+//@   ensures [records-the-mode-and-the-subscribe-function|C01,C02] result.mode == mode && result.subscribe == subscribe
+
+//@ func NewSafeObservableWithContext
+//@   props C01 C02
+//@   binds subscribe
+//@   track call.NewObservableWithConcurrencyMode
+//@   ensures [safe-is-the-locking-mode|C01,C02] trace(call.NewObservableWithConcurrencyMode(subscribe, 0))
+
+//@ func NewUnsafeObservableWithContext
+//@   props C01 C02
+//@   binds subscribe
+//@   track call.NewObservableWithConcurrencyMode
+//@   ensures [unsafe-is-the-lock-free-mode|C02] trace(call.NewObservableWithConcurrencyMode(subscribe, 1))
+
+//@ func NewEventuallySafeObservableWithContext
+//@   props C01 C02
+//@   binds subscribe
+//@   track call.NewObservableWithConcurrencyMode
+//@   ensures [eventually-safe-is-the-dropping-mode|C02] trace(call.NewObservableWithConcurrencyMode(subscribe, 2))
+
+//@ func NewObservableWithContext
+//@   props C01 C02
+//@   binds subscribe
+//@   track call.NewSafeObservableWithContext
+//@   ensures [the-default-is-safe|C01,C02] trace(call.NewSafeObservableWithContext(subscribe))
+
+//@ func NewObservable
+//@   props C01 C02
+//@   binds subscribe
+//@   track call.NewSafeObservable
+//@   ensures [the-default-is-safe|C01,C02] trace(call.NewSafeObservable(subscribe))
+
+//@ func NewSafeObservable
+//@   props C01 C02
+//@   track call.NewObservableWithConcurrencyMode
+//@   ensures [safe-is-the-locking-mode|C01,C02] trace(call.NewObservableWithConcurrencyMode(_, 0))
+
+//@ func NewUnsafeObservable
+//@   props C01 C02
+//@   track call.NewObservableWithConcurrencyMode
+//@   ensures [unsafe-is-the-lock-free-mode|C02] trace(call.NewObservableWithConcurrencyMode(_, 1))
+
+//@ func NewEventuallySafeObservable
+//@   props C01 C02
+//@   track call.NewObservableWithConcurrencyMode
+//@   ensures [eventually-safe-is-the-dropping-mode|C02] trace(call.NewObservableWithConcurrencyMode(_, 2))
+
+//@ func NewSafeObservable$1
+//@   props C01 C09
+//@   binds destination subscribe
+//@   track callfn.subscribe
+//@   ensures [adapter-hands-the-destination-over|C01] trace(callfn.subscribe(destination)) && result == res(callfn.subscribe)
+
+//@ func NewSubscriber
+//@   props C01 C02
+//@   binds destination
+//@   track call.NewSafeSubscriber
+//@   ensures [the-default-is-safe|C01,C02] trace(call.NewSafeSubscriber(destination))
+
+//@ func NewSafeSubscriber
+//@   props C01 C02
+//@   binds destination
+//@   track call.NewSubscriberWithConcurrencyMode
+//@   ensures [safe-is-the-locking-mode|C01,C02] trace(call.NewSubscriberWithConcurrencyMode(destination, 0))
+
+//@ func NewUnsafeSubscriber
+//@   props C01 C02
+//@   binds destination
+//@   track call.NewSubscriberWithConcurrencyMode
+//@   ensures [unsafe-is-the-lock-free-mode|C02] trace(call.NewSubscriberWithConcurrencyMode(destination, 1))
+
+//@ func NewEventuallySafeSubscriber
+//@   props C01 C02
+//@   binds destination
+//@   track call.NewSubscriberWithConcurrencyMode
+//@   ensures [eventually-safe-is-the-dropping-mode|C02] trace(call.NewSubscriberWithConcurrencyMode(destination, 2))
